@@ -16,6 +16,7 @@ FBin(op, a, b, p) == CASE op = "f.add" -> BAddMod(a, b, p) [] op = "f.sub" -> BS
 ChkFBin(e) == /\ e.form \in {"vv", "rv", "vr", "rr", "av", "ar"}
               /\ Canon(e.F, e.a) /\ Canon(e.F, e.b) /\ Canon(e.F, e.out)
               /\ FromBE(e.out) = FBin(e.op, FromBE(e.a), FromBE(e.b), FMod(e.F))
+              /\ ("outz" \in DOMAIN e => e.outz = (FromBE(e.out) = <<>>) /\ e.outeq = TRUE)   \* the result behaves like the value it encodes
 ChkFNeg(e) == Canon(e.F, e.a) /\ Canon(e.F, e.out)
               /\ FromBE(e.out) = (IF FromBE(e.a) = <<>> THEN <<>> ELSE BSub(FMod(e.F), FromBE(e.a)))
 ChkFInv(e) == Canon(e.F, e.a) /\
@@ -31,6 +32,39 @@ ChkFEq(e) == Canon(e.F, e.a) /\ Canon(e.F, e.b) /\ e.out = (e.a = e.b)
 ChkFSqrt(e) == Canon("Fq", e.a) /\
                IF FQ!FIsQR(FromBE(e.a)) THEN IsSome(e.out) /\ Canon("Fq", e.out.v) /\ FQ!FSqr(FromBE(e.out.v)) = FromBE(e.a)
                ELSE IsNone(e.out)
+\* ---------------------------------------------------------------- input classes (coverage of the code's carry branches)
+\* The classes are those of the Level-B model ImplMont, decided here at 256 bits by an independent predicate on the logged
+\* operands: the Montgomery residues m = a * 2^256 mod p of the operands and the value V = (S + k p) / 2^256 that the
+\* (interleaved) Montgomery reduction reaches before its final conditional subtraction.
+R256 == [i \in 1..33 |-> IF i = 33 THEN 1 ELSE 0]
+RModQ == BMod(R256, Q)
+RModR == BMod(R256, R)
+RInvQ == BModInvPrime(RModQ, Q)
+RInvR == BModInvPrime(RModR, R)
+MontOf(F, a) == BMulMod(a, IF F = "Fq" THEN RModQ ELSE RModR, FMod(F))
+\* V = (S + k p)/2^256 with 0 <= k < 2^256: the unique value = S * 2^-256 (mod p) in [ceil(S / 2^256), ceil(S / 2^256) + p)
+Redc(F, S) == LET p == FMod(F)
+                  v0 == BMulMod(BMod(S, p), IF F = "Fq" THEN RInvQ ELSE RInvR, p)
+                  lo == BDiv(BAdd(S, BSub(R256, <<1>>)), R256)
+              IN BAdd(lo, BSubMod(v0, BMod(lo, p), p))
+SopClass(V) == LET u4 == BDiv(V, R256)  r == BMod(V, R256)
+               IN IF u4 = <<>> THEN "sop.u4=0"
+                  ELSE IF u4 = <<1>> THEN (IF BLess(r, Q) THEN "sop.u4=1.r<q" ELSE "sop.u4=1.r>=q")
+                  ELSE "sop.u4>=2"
+ClsOf(e) ==
+    CASE e.op = "f.mul" -> LET V == Redc(e.F, BMul(MontOf(e.F, FromBE(e.a)), MontOf(e.F, FromBE(e.b))))
+                           IN { IF ~BLess(V, R256) THEN "mul.carry2" ELSE IF ~BLess(V, FMod(e.F)) THEN "mul.ge_p" ELSE "mul.lt_p" }
+      [] e.op = "f.add" -> LET s == BAdd(MontOf(e.F, FromBE(e.a)), MontOf(e.F, FromBE(e.b)))
+                           IN { IF ~BLess(s, R256) THEN "add.carry" ELSE IF s = FMod(e.F) THEN "add.eq_p" ELSE IF ~BLess(s, FMod(e.F)) THEN "add.ge_p" ELSE "add.lt_p" }
+      [] e.op = "f.sub" -> LET ma == MontOf(e.F, FromBE(e.a))  mb == MontOf(e.F, FromBE(e.b))
+                           IN { IF ma = mb THEN "sub.equal" ELSE IF BLess(ma, mb) THEN "sub.borrow" ELSE "sub.plain" }
+      [] e.op = "f2.mul" -> LET x == DecFq2(e.a)  y == DecFq2(e.b)
+                                a0 == MontOf("Fq", x[1])  a1 == MontOf("Fq", x[2])  b0 == MontOf("Fq", y[1])  b1 == MontOf("Fq", y[2])
+                                n2a1 == MontOf("Fq", FQ!FNeg(FQ!FAdd(x[2], x[2])))
+                            IN { SopClass(Redc("Fq", BAdd(BMul(a0, b0), BMul(n2a1, b1)))), SopClass(Redc("Fq", BAdd(BMul(a0, b1), BMul(a1, b0)))) }
+      [] OTHER -> {}
+CovNames == {"mul.carry2", "mul.ge_p", "mul.lt_p", "add.carry", "add.eq_p", "add.ge_p", "add.lt_p", "sub.equal", "sub.borrow", "sub.plain",
+             "sop.u4=0", "sop.u4=1.r<q", "sop.u4=1.r>=q", "sop.u4>=2"}
 \* ---------------------------------------------------------------- conversions
 ChkFromSlice(e) == OptIs(e.out, FromSliceSpec(FMod(e.F), e.in), 32)
 ChkInterpret(e) == Len(e.in) = 64 /\ OptIs(e.out, BMod(FromBE(e.in), FMod(e.F)), 32)
@@ -50,6 +84,7 @@ F2Bin(op, x, y) == CASE op = "f2.add" -> E2!Add(x, y) [] op = "f2.sub" -> E2!Sub
 ChkF2Bin(e) == /\ e.form \in {"vv", "rv", "vr", "rr", "av", "ar"}
                /\ Canon2(e.a) /\ Canon2(e.b) /\ Canon2(e.out)
                /\ DecFq2(e.out) = F2Bin(e.op, DecFq2(e.a), DecFq2(e.b))
+               /\ ("outz" \in DOMAIN e => e.outz = (DecFq2(e.out) = E2!Zero) /\ e.outeq = TRUE)
 ChkF2Neg(e) == Canon2(e.a) /\ Canon2(e.out) /\ DecFq2(e.out) = E2!Neg(DecFq2(e.a))
 ChkF2Parts(e) == /\ Canon2(e.a) /\ Canon("Fq", e.re) /\ Canon("Fq", e.im)
                  /\ <<FromBE(e.re), FromBE(e.im)>> = DecFq2(e.a)
